@@ -123,6 +123,17 @@ pub fn check_case(l: &mut Local, case: &Case) {
                 let j = id_to_col[&v.id] as usize;
                 let got = eff_domain(v);
                 let want = doms[j];
+                // the kind itself: binary is given by a BV bound, or (the SDK's documented convention)
+                // by an integral column whose bounds are exactly [0, 1]; any other integral column is integer
+                let has_bv = lp.cols[j].bounds.iter().any(|b| b.0 == "BV");
+                if v.kind == KIND_BINARY && !has_bv && !(want.0 && want.1 == 0.0 && want.2 == 1.0) {
+                    let spec: Vec<String> = lp.cols[j].bounds.iter().map(|b| b.0.clone()).collect();
+                    l.violation(
+                        &format!("model/kind/binary-reported-for/{}{}", if lp.cols[j].integer_marker { "int-" } else { "" }, if spec.is_empty() { "default".to_string() } else { spec.join("+") }),
+                        || json!(case),
+                        format!("column {} (integer marker {}, bounds {:?}) has no BV bound and its domain is not [0, 1], but it was read as a binary variable with bound {:?}", lp.cols[j].name, lp.cols[j].integer_marker, lp.cols[j].bounds, v.bound.as_ref().map(|b| (b.lower, b.upper))),
+                    );
+                }
                 if got != want {
                     let spec: Vec<String> = lp.cols[j].bounds.iter().map(|b| b.0.clone()).collect();
                     l.violation(
@@ -240,6 +251,12 @@ pub fn bound_alphabet() -> Vec<Vec<(String, Option<f64>)>> {
         vec![b("UP", Some(-2.0)), b("LO", Some(-10.0))],
         vec![b("MI", None), b("UP", Some(-2.0))],
         vec![b("UP", Some(1e30))],
+        // upper bound exactly 1 without the lower bound being 0: an integer column stays integer
+        vec![b("FX", Some(1.0))],
+        vec![b("LO", Some(1.0)), b("UP", Some(1.0))],
+        vec![b("LO", Some(-1.0)), b("UP", Some(1.0))],
+        vec![b("UP", Some(1.0))],
+        vec![b("FX", Some(0.0))],
     ]
 }
 
@@ -487,7 +504,7 @@ pub fn run(ctx: &Ctx) -> Finish {
     // 3. a fixed 5-row x 6-column model using every row and bound type, in every layout / sense / style / reader
     ctx.seq(|l| {
         let r5 = [rows[1], rows[13], rows[20], rows[5], rows[24]];
-        let c6: Vec<(bool, Vec<(String, Option<f64>)>)> = vec![cols[1].clone(), cols[8].clone(), cols[9].clone(), cols[16 + 10].clone(), cols[16 + 4].clone(), cols[12].clone()];
+        let c6: Vec<(bool, Vec<(String, Option<f64>)>)> = vec![cols[1].clone(), cols[8].clone(), cols[9].clone(), cols[bounds.len() + 10].clone(), cols[bounds.len() + 4].clone(), cols[12].clone()];
         for st in &styles {
             for lay in &lays {
                 for sense in SENSES {
@@ -518,7 +535,7 @@ pub fn run(ctx: &Ctx) -> Finish {
     ctx.assume("Outside the alphabet because the property does not fix their meaning: UP 0 without LO, RANGES value 0, a second N row, RHS on an undeclared row, OMMX_VAR_x names that do not parse as ids, negative UI without lower bound.");
     Finish {
         level: "model_checking",
-        rule: "abstract LP/MIP models rendered by the harness's own free-format MPS writer and loaded by the real readers: full product of 27 row specs (E/L/G x range none/+/- x rhs none/+/-) x 32 column specs (integer marker x 16 bound specs incl. UP, negative UP, LO, LO+UP in both orders, FX, MI, PL, FR, BV, LI, UI, MI+UP, LI+UI) for one row and one column under every layout (3/5-field lines, comments, blank lines, wide separators), sense form, name style, objective constant and reader; two rows x two columns (full product in thorough); a fixed 5x6 model under all layouts; expected instance computed from the abstract model and compared by name; fault files for every error keyword at every applicable position; non-trivial = model has rows / fault case".into(),
+        rule: "abstract LP/MIP models rendered by the harness's own free-format MPS writer and loaded by the real readers: full product of 27 row specs (E/L/G x range none/+/- x rhs none/+/-) x 50 column specs (integer marker x 25 bound specs incl. UP, negative UP, LO, LO+UP in both orders, FX, MI, PL, FR, BV, LI, UI, MI+UP, LI+UI, upper bound exactly 1 with lower bound 0 / 1 / -1 / absent, FX 0 and 1) for one row and one column under every layout (3/5-field lines, comments, blank lines, wide separators), sense form, name style, objective constant and reader; two rows x two columns (full product in thorough); a fixed 5x6 model under all layouts; expected instance computed from the abstract model and compared by name (binary kind only for BV columns or integral [0,1] columns); fault files for every error keyword at every applicable position; non-trivial = model has rows / fault case".into(),
         bounds: json!({"rows_max": 5, "cols_max": 6, "full_product": if t { "1x1 and 2x2" } else { "1x1; 2x2 pairwise" }}),
         exhaustive: t,
     }
